@@ -832,7 +832,7 @@ pub fn run(run: &'static Run) {
     run.rule(format!(
         "fixtures: 10 git-built repositories (3 x overlapping packs A=[base, 2 ref-deltas] B=[filler, base, 2 ref-deltas] C=[filler, base, ofs-delta] under a git-written multi-pack-index preferring A, B or C, read with and without it; ofs/ref deltas, --depth 1/2/3/4/5, --window 0/2/10, three packs + multi-pack-index, twin packs with equal delta offsets, three ~200 KiB incompressible blobs differing by small insertions whose deltas hold copy instructions of encoded size 0 = 0x10000 bytes); \
          request alphabet per fixture = first {k} of [chain tip, chain middle, chain base, sibling delta sharing a delta ancestor, deltas in other packs, delta of the ~67 KB blob, tree delta, tip's parent, commit] (see `alphabets`); \
-         histories = ALL request sequences with repetition of length 1..={max_len} (sub `reads`, full cache matrix) and of length {} over the first {k_long} objects (sub `reads-long`, reduced matrix: StaticLinkedList<2> x all limits, MemoryCappedHashmap(s0+s1), odb: those two x object cache {{unset, w0+w1}}), each on one fresh cache and one reused output buffer; \
+         histories = ALL request sequences with repetition of length 1..={max_len} (subs `reads`/`reads-midx`, full cache matrix) and of length {} over the first {k_long} objects (subs `reads-long`/`reads-midx-long`, reduced matrix: StaticLinkedList<2> x all limits, MemoryCappedHashmap(s0+s1), odb: those two x object cache {{unset, w0+w1}}), each on one fresh cache and one reused output buffer; \
          caches: Never, StaticLinkedList<1|2|64> x mem_limit {{0,1,s0-1,s0,s0+s1-1,s0+s1,sum}} (s0<=s1 smallest deltified alphabet objects), lru::MemoryCappedHashmap caps {{1,s0-1,s0,s0+s1,sum,64MiB}}, \
          object cache {{unset, Never, MemoryCappedHashmap caps 1, w0, w0+w1, 64MiB}} (w = entry weight); access paths: Bundle::find, data::File::decode_entry with every ref-delta base handed over as ResolvedBase::OutOfPack (ref fixtures), \
          gix_odb Store + handle with set_pack_cache/set_object_cache + Find::try_find (with and without multi-pack-index). \
@@ -905,9 +905,9 @@ pub fn run(run: &'static Run) {
         configs
     };
     let quick = run.quick();
-    let gen = |reduced: bool, kmax: usize, lens: std::ops::RangeInclusive<usize>, emit: &mut dyn FnMut(Case)| {
+    let gen = |midx_fixtures: bool, reduced: bool, kmax: usize, lens: std::ops::RangeInclusive<usize>, emit: &mut dyn FnMut(Case)| {
         for len in lens {
-            for f in fxs.iter() {
+            for f in fxs.iter().filter(|f| f.has_midx == midx_fixtures) {
                 let kk = kmax.min(f.alphabet.len());
                 let alpha: Vec<u8> = (0..kk as u8).collect();
                 // quick: two of the three overlap fixtures run on the reduced cache matrix only (the lookup under test does not depend on caches)
@@ -927,9 +927,13 @@ pub fn run(run: &'static Run) {
     }
     run.cov("fixture_x_configuration_pairs_full_matrix", n_cfg.0);
     run.cov("fixture_x_configuration_pairs_reduced_matrix", n_cfg.1);
+    // fixtures with a multi-pack-index run isolated: a wrong base there can end in an aborting allocation, which the driver then
+    // attributes to the in-flight history (sub names *-midx)
+    run.sub("reads", |emit| gen(false, false, k, 1..=max_len, emit), |c: &Case| eval(run, fxs, g, c));
+    run.sub("reads-long", |emit| gen(false, true, k_long, max_len + 1..=max_len + 1, emit), |c: &Case| eval(run, fxs, g, c));
     let opts = || vkit::Opts::default().isolate();
-    run.sub_with("reads", opts(), |emit| gen(false, k, 1..=max_len, emit), |c: &Case| eval(run, fxs, g, c));
-    run.sub_with("reads-long", opts(), |emit| gen(true, k_long, max_len + 1..=max_len + 1, emit), |c: &Case| eval(run, fxs, g, c));
+    run.sub_with("reads-midx", opts(), |emit| gen(true, false, k, 1..=max_len, emit), |c: &Case| eval(run, fxs, g, c));
+    run.sub_with("reads-midx-long", opts(), |emit| gen(true, true, k_long, max_len + 1..=max_len + 1, emit), |c: &Case| eval(run, fxs, g, c));
 
     for shard in &g.states {
         run.mc_states_bulk(shard.lock().unwrap().iter().copied());
